@@ -90,7 +90,10 @@ def spaces(tier, seed):
     longaxis = [{"kind": "long", "nd": nd, "subpix": sp, "type": t, "inv": inv, "rows": rows, "cols": cols}
                 for nd in (255, 256, 257, 300, 521) for sp in (1, 2, 4) for t in ("min", "max")
                 for inv in (-9999, "NaN") for (rows, cols) in ((3, 7), (101, 2))]
+    hist = [{"kind": "defhist", "first": f, "type": t} for f in INVALIDS for t in ("min", "max")]
     return [
+        {"name": "invalid_disparity omitted after another step object was configured with an explicit value", "level": 1,
+         "cases": hist},
         {"name": "long disparity axes (255..521 samples, subpix 1/2/4), winner placed at every index class", "level": 1,
          "cases": longaxis},
         {"name": "single-pixel volumes, all vectors", "level": 0, "cases": singles},
@@ -305,7 +308,31 @@ def run_long(case):
     return {"n": 1, "sigs": [f"l|{nd}|{sp}|{t}|{inv}|{rows}|{dig}"], "viol": viol[:5]}
 
 
+def run_defhist(case):
+    """
+    the configured invalid_disparity of THIS step (omitted = the documented default -9999) is what pixels without
+    cost receive, whatever value an earlier disparity step object of the process was configured with
+    """
+    from pandora import disparity  # pylint: disable=import-outside-toplevel
+
+    viol = []
+    costs = np.array([[[np.nan, np.nan], [1.0, 0.0]]], dtype=np.float32)
+    disps = np.array([-1, 0])
+    first = disparity.AbstractDisparity(**{"disparity_method": "wta", "invalid_disparity": case["first"]})
+    first.to_disp(D.cost_volume(costs, disps, type_measure=case["type"]))
+    second = disparity.AbstractDisparity(**{"disparity_method": "wta"})
+    out = second.to_disp(D.cost_volume(costs, disps, type_measure=case["type"]))
+    got = float(out["disparity_map"].data[0, 0])
+    if got != -9999.0:
+        viol.append({"clause": "configured-invalid-disparity", "key": "C03/configured-invalid-disparity/default after "
+                     "an explicit value on another object", "detail": f"a step configured without invalid_disparity "
+                     f"(default -9999) wrote {got} after an earlier step object was configured with {case['first']!r}"})
+    return {"n": 1, "sigs": [f"dh|{case['first']}|{case['type']}|{got}"], "viol": viol}
+
+
 def run_case(case):
+    if case["kind"] == "defhist":
+        return run_defhist(case)
     if case["kind"] == "machine":
         return run_machine(case)
     if case["kind"] == "long":
